@@ -10,7 +10,9 @@ From EC Require Import Lib.Outcome Lib.U64 Lib.ListW Lib.Obs Model.Msgs Model.Re
   Proofs.ProtocolLiveCatch Proofs.ProtocolLiveNoStop.
 From EC Require Import Proofs.ProtocolRefinesAbs Proofs.ProtocolRefinesStep.
 From EC Require Import Proofs.ProtocolLiveCommitStep Proofs.ProtocolLiveCommitLock Proofs.ProtocolLiveCommit
-  Proofs.ProtocolLiveTimeoutStep Proofs.ProtocolLiveTimeoutLock Proofs.ProtocolLiveTidy Proofs.ProtocolLiveTimeout.
+  Proofs.ProtocolLiveTimeoutStep Proofs.ProtocolLiveTimeoutLock Proofs.ProtocolLiveTidy Proofs.ProtocolLiveTimeout
+  Proofs.ProtocolLiveAvail.
+From EC Require Proofs.ProtocolRefinesInv.
 Import ListNotations.
 Open Scope Z_scope.
 
@@ -115,6 +117,233 @@ Section Lockstep.
         { destruct i as [|i']; [rewrite Z.add_0_r in Hhi; congruence|].
           exists i'. split; [lia|]. replace (V + 1 + Z.of_nat i') with (V + Z.of_nat (S i')) by lia. exact Hhi. }
         destruct (IH _ (V + 1) n Hr2 ltac:(lia) ltac:(lia) ltac:(lia) Hsb2 HLS2 Hex) as (r & Hrr & Hall).
+        exists (S r). split; [lia|]. intros k Hk.
+        replace (2 * S r)%nat with (2 + 2 * r)%nat by lia. rewrite (sync_rounds_add P pay fetch 2).
+        exact (Hall k Hk).
+  Qed.
+
+  (* ================================================================ *)
+  (* the weaker lockstep: block n may already have been voted          *)
+  (* ================================================================ *)
+  (* nothing at or above block n is certified, nothing above block n is voted: the honest high
+     votes may be for block n itself (from an earlier view that did not complete) *)
+  Definition tidy_le (s : gstate) (n : Z) : Prop :=
+    (forall q, gq (cfg 0) hon (g_soup s) q -> hnum (cprop (qmsg q)) < n) /\
+    (forall k, hon k = true -> tidy_node_b P n (n + 1) (n_live (g_node s k))).
+  (* the one verifying proposal of the leader of V on the network is the forced re-proposal of
+     block n with payload hash h *)
+  Definition repending (s : gstate) (V n : Z) : Prop :=
+    exists h j mv,
+      justification_view (E := unit) true j = Ok mv /\ vnum mv = V /\
+      justification_verify (p_g P) (p_e P) (p_C P) j = Ok tt /\
+      get_implied_block (E := unit) true (p_C P) (p_first P) j = Ok (n, Some h) /\
+      In {| m_key := leader V; m_sig_ok := true; m_msg := MProposal None j |} (g_soup s) /\
+      uniq_prop P V j None (g_soup s).
+  Definition wlockstep (s : gstate) (V n : Z) : Prop :=
+    p_first P <= n /\ lock P s V n /\ tidy_le s n /\
+    (hon (leader V) = true -> pending P pay s V n \/ repending s V n) /\
+    (hon (leader V) = false -> noprop s V).
+
+  Lemma tidy_node_le n st : tidy_node P n st -> tidy_node_b P n (n + 1) st.
+  Proof. intros [H1 H2]. split; [intros c Hc; specialize (H1 c Hc); lia|exact H2]. Qed.
+
+  Lemma lockstep_weak s V n : lockstep s V n -> wlockstep s V n.
+  Proof.
+    intros (A & B & [C1 C2] & D & E). split; [exact A|]. split; [exact B|]. split.
+    - split; [exact C1|]. intros k Hk. apply tidy_node_le. exact (C2 k Hk).
+    - split; [intros H; left; exact (D H)|exact E].
+  Qed.
+
+  (* a view with a Byzantine leader: two rounds later the next view, in weak lockstep *)
+  Lemma wlockstep_timeout Bs s V n : Bs + 1 < U64 -> preach P s -> 0 < V ->
+    p_first P + V + 2 < U64 -> V + 1 <= Bs -> (forall m, In m (g_soup s) -> msg_view (m_msg m) <= Bs) ->
+    wlockstep s V n -> hon (leader V) = false ->
+    let s2 := sync_rounds P pay fetch 2 s in
+    preach P s2 /\ (forall m, In m (g_soup s2) -> msg_view (m_msg m) <= Bs) /\ wlockstep s2 (V + 1) n.
+  Proof.
+    intros HBs Hr HV Hh1 Hle Hsb (Hfn & Hlock & [HT0 HX] & _ & Hnp) HL. cbv zeta. specialize (Hnp HL).
+    destruct (timeout_two_rounds_post P HP pay fetch Henv V n HV s Hr Bs Hh1 HBs Hle Hsb Hlock Hnp)
+      as (Hr2 & Hsb2 & Hlock2 & Hhon & Hbyz).
+    destruct (timeout_two_rounds_tidy_b P HP pay fetch Henv V n HV s Hr Bs Hh1 HBs Hle Hsb Hlock Hnp HT0 (n + 1) HX)
+      as (HT02 & HX2 & HTM2).
+    split; [exact Hr2|]. split; [exact Hsb2|].
+    split; [exact Hfn|]. split; [exact Hlock2|]. split; [split; assumption|]. split; [|exact Hbyz].
+    intros HL'. destruct (Hhon HL') as (tq & p & EV & Hver & Hkt & Hp & Hin & Huq).
+    assert (Htv : tqc_verify (p_g P) (p_e P) (p_C P) tq = Ok tt) by (apply justification_verify_iff in Hver; exact Hver).
+    unfold proposal_payload in Hp.
+    destruct (get_implied_block (E := unit) true (p_C P) (p_first P) (JTimeout tq)) as [[n' oh]| |] eqn:Ei; try discriminate.
+    assert (En : n' = n).
+    { apply (implied_tidy_le P HP n _ tq Hr2 Htv Hkt HT02) with (oh := oh); [|exact Hfn|exact Ei].
+      intros h m Hh Hm Etv. apply (HTM2 h m Hh Hm). rewrite Etv. exact EV. }
+    subst n'.
+    assert (Ejv : justification_view (E := unit) true (JTimeout tq) =
+                  Ok {| vgen := vgen (tqview tq); vepoch := vepoch (tqview tq); vnum := V + 1 |}).
+    { unfold justification_view, num_next, u64_add. rewrite EV.
+      assert (H : (V + 1 <? U64) = true) by (apply Z.ltb_lt; lia). rewrite H. reflexivity. }
+    destruct oh as [h|]; inversion Hp; subst p.
+    - right. exists h, (JTimeout tq), {| vgen := vgen (tqview tq); vepoch := vepoch (tqview tq); vnum := V + 1 |}.
+      split; [exact Ejv|]. split; [reflexivity|]. split; [exact Hver|]. split; [exact Ei|]. split; [exact Hin|].
+      intros m p' j' mv' Hin' Em Ek Esg Ejv' EV' Ever. exact (Huq m p' j' mv' Hin' Em Ek Esg Ejv' EV' Ever).
+    - left. exists (JTimeout tq), {| vgen := vgen (tqview tq); vepoch := vepoch (tqview tq); vnum := V + 1 |}.
+      split; [exact Ejv|]. split; [reflexivity|]. split; [exact Hver|]. split; [exact Ei|]. split; [exact Hin|].
+      intros m p' j' mv' Hin' Em Ek Esg Ejv' EV' Ever. exact (Huq m p' j' mv' Hin' Em Ek Esg Ejv' EV' Ever).
+  Qed.
+
+  (* the same from a state in which some honest nodes have already timed out in view V *)
+  Lemma mixed_wlockstep Bs s V n : Bs + 1 < U64 -> preach P s -> 0 < V ->
+    p_first P + V + 2 < U64 -> V + 1 <= Bs -> (forall m, In m (g_soup s) -> msg_view (m_msg m) <= Bs) ->
+    p_first P <= n ->
+    (forall k, hon k = true ->
+       up s k /\ hview s k = V /\ r_phase (n_live (g_node s k)) <> PCommit /\ n <= r_store_next (n_live (g_node s k))) ->
+    noprop s V ->
+    (forall t, tqc_verify (p_g P) (p_e P) (p_C P) t = Ok tt -> kt hon (g_soup s) t -> vnum (tqview t) < V) ->
+    tidy_le s n ->
+    (forall m t0, In m (g_soup s) -> m_sig_ok m = true -> hon (m_key m) = true -> m_msg m = MTimeout t0 ->
+       vnum (tview t0) = V -> tidy_report_b P n (n + 1) t0) ->
+    let s2 := sync_rounds P pay fetch 2 s in
+    preach P s2 /\ (forall m, In m (g_soup s2) -> msg_view (m_msg m) <= Bs) /\ wlockstep s2 (V + 1) n.
+  Proof.
+    intros HBs Hr HV Hh1 Hle Hsb Hfn Hal Hnp HnoT [HT0 HX] HXT. cbv zeta.
+    assert (Hdv : forall k, hon k = true -> dview s k = V).
+    { intros k Hk. destruct (Hal k Hk) as (Hu & Hv & _). rewrite (up_dview P HP s k Hr Hk Hu). exact Hv. }
+    assert (Heta : forall m : sgmsg, m_sig_ok m = true -> m = {| m_key := m_key m; m_sig_ok := true; m_msg := m_msg m |}).
+    { intros [a b c]. cbn. intros ->. reflexivity. }
+    assert (HGC : forall m c, In m (g_soup s) -> m_sig_ok m = true -> hon (m_key m) = true -> m_msg m = MCommit c ->
+              vnum (cview c) < V).
+    { intros m c Hin Hsg Hh Em.
+      destruct (preach_VP P s Hr m c Hin Hsg Hh Em) as (m' & p & j & Hinm & Em' & Ejv & Ever).
+      rewrite (Heta m Hsg), Em in Hin.
+      assert (HB : forall k, hon k = true -> dview s k < V + 1 \/ (dview s k = V + 1 /\ dphase s k = Prepare))
+        by (intros k Hk; left; rewrite (Hdv k Hk); lia).
+      pose proof (no_commit_msg_at P HP s (m_key m) c (V + 1) Hr HB Hh Hin) as Hlt.
+      destruct (Z.eq_dec (vnum (cview c)) V) as [E|E]; [|lia].
+      exfalso. exact (Hnp m' p j (cview c) Hinm Em' Ejv E Ever). }
+    assert (HGT : forall m t0, In m (g_soup s) -> m_sig_ok m = true -> hon (m_key m) = true -> m_msg m = MTimeout t0 ->
+              V <= vnum (tview t0) -> vnum (tview t0) = V /\ timeout_verify (p_g P) (p_e P) (p_C P) t0 = Ok tt).
+    { intros m t0 Hin Hsg Hh Em HVt.
+      pose proof (preach_SOK P s Hr m Hin Hsg Hh) as Hok. rewrite Em in Hok. cbn [vmsg] in Hok.
+      rewrite (Heta m Hsg), Em in Hin.
+      assert (HB : forall k, hon k = true -> dview s k < V + 1 \/ (dview s k = V + 1 /\ dphase s k <> PTimeout))
+        by (intros k Hk; left; rewrite (Hdv k Hk); lia).
+      pose proof (no_timeout_msg_at P HP s (m_key m) t0 (V + 1) Hr HB Hh Hin) as Hlt.
+      split; [lia|exact Hok]. }
+    destruct (timeout_mixed_post P HP pay fetch Henv V n HV s Hr Bs Hh1 HBs Hle Hsb Hal Hnp HGC HGT HnoT)
+      as (Hr2 & Hsb2 & Hlock2 & Hhon & Hbyz).
+    destruct (timeout_mixed_tidy P HP pay fetch Henv V n HV s Hr Bs Hh1 HBs Hle Hsb Hal Hnp HGC HGT HnoT (n + 1) HT0 HX HXT)
+      as (HT02 & HX2 & HTM2).
+    split; [exact Hr2|]. split; [exact Hsb2|].
+    split; [exact Hfn|]. split; [exact Hlock2|]. split; [split; assumption|]. split; [|exact Hbyz].
+    intros HL'. destruct (Hhon HL') as (tq & p & EV & Hver & Hkt & Hp & Hin & Huq).
+    assert (Htv : tqc_verify (p_g P) (p_e P) (p_C P) tq = Ok tt) by (apply justification_verify_iff in Hver; exact Hver).
+    unfold proposal_payload in Hp.
+    destruct (get_implied_block (E := unit) true (p_C P) (p_first P) (JTimeout tq)) as [[n' oh]| |] eqn:Ei; try discriminate.
+    assert (En : n' = n).
+    { apply (implied_tidy_le P HP n _ tq Hr2 Htv Hkt HT02) with (oh := oh); [|exact Hfn|exact Ei].
+      intros h m Hh Hm Etv. apply (HTM2 h m Hh Hm). rewrite Etv. exact EV. }
+    subst n'.
+    assert (Ejv : justification_view (E := unit) true (JTimeout tq) =
+                  Ok {| vgen := vgen (tqview tq); vepoch := vepoch (tqview tq); vnum := V + 1 |}).
+    { unfold justification_view, num_next, u64_add. rewrite EV.
+      assert (H : (V + 1 <? U64) = true) by (apply Z.ltb_lt; lia). rewrite H. reflexivity. }
+    destruct oh as [h|]; inversion Hp; subst p.
+    - right. exists h, (JTimeout tq), {| vgen := vgen (tqview tq); vepoch := vepoch (tqview tq); vnum := V + 1 |}.
+      split; [exact Ejv|]. split; [reflexivity|]. split; [exact Hver|]. split; [exact Ei|]. split; [exact Hin|].
+      intros m p' j' mv' Hin' Em Ek Esg Ejv' EV' Ever. exact (Huq m p' j' mv' Hin' Em Ek Esg Ejv' EV' Ever).
+    - left. exists (JTimeout tq), {| vgen := vgen (tqview tq); vepoch := vepoch (tqview tq); vnum := V + 1 |}.
+      split; [exact Ejv|]. split; [reflexivity|]. split; [exact Hver|]. split; [exact Ei|]. split; [exact Hin|].
+      intros m p' j' mv' Hin' Em Ek Esg Ejv' EV' Ever. exact (Huq m p' j' mv' Hin' Em Ek Esg Ejv' EV' Ever).
+  Qed.
+
+  (* the payload of a pending forced re-proposal is cached by some honest node *)
+  Lemma repending_cached s V n h j : preach P s -> lock P s V n ->
+    (forall q, gq (cfg 0) hon (g_soup s) q -> hnum (cprop (qmsg q)) < n) ->
+    justification_verify (p_g P) (p_e P) (p_C P) j = Ok tt ->
+    get_implied_block (E := unit) true (p_C P) (p_first P) j = Ok (n, Some h) ->
+    In {| m_key := leader V; m_sig_ok := true; m_msg := MProposal None j |} (g_soup s) ->
+    exists k0, hon k0 = true /\ cache_has (r_cache (n_live (g_node s k0))) n h = true.
+  Proof.
+    intros Hr Hlock HT0 Hjver Himp Hin.
+    destruct (ProtocolRefinesInv.preach_inv P HP s Hr) as [a G].
+    pose proof (ProtocolRefinesInv.gi_soup _ _ _ G _ Hin) as Hkm. cbn [m_msg kmsg] in Hkm.
+    destruct j as [q|tq].
+    - cbn [get_implied_block] in Himp. destruct (num_next true (hnum (cprop (qmsg q)))); cbn [bind] in Himp; discriminate.
+    - cbn [kj] in Hkm. apply justification_verify_iff in Hjver.
+      destruct (implied_reporter P HP s tq n h Hr Hjver Hkm Himp) as (k1 & t1 & c1 & Hk1 & Hsent & Ehv & En & Eh).
+      destruct (ProtocolRefinesInv.gi_timeout _ _ _ G k1 t1 Hk1 Hsent) as (d1 & Hd1 & _ & _ & Hhv & _).
+      destruct (preach_PA P HP n h s Hr) as [_ HPA].
+      destruct (HPA k1 d1 Hk1 Hd1 ltac:(exists c1; rewrite Hhv; auto)) as [(k0 & Hk0 & H1 & H2)|(q & Hq & Hn)].
+      + exists k0. split; [exact Hk0|]. apply H2. apply (Hlock k0 Hk0).
+      + specialize (HT0 q Hq). lia.
+  Qed.
+
+  (* the commit theorem for a forced re-proposal *)
+  Lemma commit_reproposal Bs s V n h j mv : Bs + 1 < U64 ->
+    justification_view (E := unit) true j = Ok mv -> vnum mv = V ->
+    justification_verify (p_g P) (p_e P) (p_C P) j = Ok tt ->
+    get_implied_block (E := unit) true (p_C P) (p_first P) j = Ok (n, Some h) ->
+    p_first P <= n -> 0 < V -> preach P s -> p_first P + V + 2 < U64 -> V + 1 <= Bs ->
+    (forall m, In m (g_soup s) -> msg_view (m_msg m) <= Bs) -> lock P s V n ->
+    (forall q, gq (cfg 0) hon (g_soup s) q -> hnum (cprop (qmsg q)) < n) ->
+    In {| m_key := leader V; m_sig_ok := true; m_msg := MProposal None j |} (g_soup s) ->
+    uniq_prop P V j None (g_soup s) ->
+    fetch_ok_at P fetch (sync_point P pay (sync_round P pay fetch s)) ->
+    forall k, hon k = true ->
+      up (sync_rounds P pay fetch 2 s) k /\ V < hview (sync_rounds P pay fetch 2 s) k /\
+      n < r_store_next (n_live (g_node (sync_rounds P pay fetch 2 s) k)).
+  Proof.
+    intros HBs Hjv Hmv Hjver Himp Hfn HV Hr Hh1 Hle Hsb Hlock HT0 Hin Huq Hfo.
+    destruct (repending_cached s V n h j Hr Hlock HT0 Hjver Himp Hin) as (k0 & Hk0 & Hc0).
+    assert (Hkind : (Some h = None /\ @None Z = Some h /\ p_pok P n h = true /\ p_psize P h <= p_maxpay P) \/
+                    (Some h = Some h /\ @None Z = None)) by (right; auto).
+    exact (commit_two_rounds P HP pay fetch Henv V n j mv None h (Some h) Hjv Hmv Hjver Himp Hkind Hfn HV s Hr Bs
+             Hh1 HBs Hle Hsb Hlock Hin Huq (or_intror (ex_intro _ k0 (conj Hk0 Hc0))) (fun _ => Hfo)).
+  Qed.
+
+  Lemma fetch_ok_run_shift s R : fetch_ok_run P pay fetch s (2 + R) ->
+    fetch_ok_run P pay fetch (sync_rounds P pay fetch 2 s) R.
+  Proof.
+    intros H r Hr. specialize (H (2 + r)%nat ltac:(lia)). rewrite (sync_rounds_add P pay fetch 2) in H. exact H.
+  Qed.
+
+  (* progress from a weak lockstep state: the first honest leader among V .. V+nb gets block n
+     stored by everybody, by a new proposal or by the forced re-proposal (H-FETCH over the rounds) *)
+  Theorem progress_from_wlockstep (Bs : Z) : Bs + 1 < U64 -> forall nb s V n,
+    preach P s -> 0 < V -> p_first P + V + Z.of_nat nb + 2 < U64 -> V + Z.of_nat nb + 1 <= Bs ->
+    (forall m, In m (g_soup s) -> msg_view (m_msg m) <= Bs) ->
+    wlockstep s V n -> fetch_ok_run P pay fetch s (2 * (nb + 1)) ->
+    (exists i, (i <= nb)%nat /\ hon (leader (V + Z.of_nat i)) = true) ->
+    exists r, (1 <= r <= nb + 1)%nat /\
+      forall k, hon k = true ->
+        up (sync_rounds P pay fetch (2 * r) s) k /\
+        n < r_store_next (n_live (g_node (sync_rounds P pay fetch (2 * r) s) k)).
+  Proof.
+    intros HBs.
+    assert (Hhonest : forall nb s V n, preach P s -> 0 < V -> p_first P + V + Z.of_nat nb + 2 < U64 -> V + Z.of_nat nb + 1 <= Bs ->
+              (forall m, In m (g_soup s) -> msg_view (m_msg m) <= Bs) ->
+              wlockstep s V n -> fetch_ok_run P pay fetch s (2 * (nb + 1)) -> hon (leader V) = true ->
+              forall k, hon k = true ->
+                up (sync_rounds P pay fetch 2 s) k /\
+                n < r_store_next (n_live (g_node (sync_rounds P pay fetch 2 s) k))).
+    { intros nb s V n Hr HV Hh1 Hle Hsb (Hfn & Hlock & [HT0 _] & Hpend & _) Hfr EL k Hk.
+      destruct (Hpend EL) as [(j & mv & Hjv & Hmv & Hjver & Himp & Hin & Huq)|(h & j & mv & Hjv & Hmv & Hjver & Himp & Hin & Huq)].
+      - destruct (commit_new_block Bs s V n j mv HBs Hjv Hmv Hjver Himp Hfn HV Hr ltac:(lia) ltac:(lia) Hsb Hlock Hin Huq k Hk)
+          as (A & _ & C). auto.
+      - assert (Hfo : fetch_ok_at P fetch (sync_point P pay (sync_round P pay fetch s))).
+        { exact (Hfr 1%nat ltac:(lia)). }
+        destruct (commit_reproposal Bs s V n h j mv HBs Hjv Hmv Hjver Himp Hfn HV Hr ltac:(lia) ltac:(lia) Hsb Hlock HT0 Hin Huq Hfo k Hk)
+          as (A & _ & C). auto. }
+    induction nb as [|nb IH]; intros s V n Hr HV Hh1 Hle Hsb HLS Hfr (i & Hi & Hhi).
+    - assert (i = 0%nat) by lia. subst i. rewrite Z.add_0_r in Hhi.
+      exists 1%nat. split; [lia|]. intros k Hk. exact (Hhonest 0%nat s V n Hr HV Hh1 Hle Hsb HLS Hfr Hhi k Hk).
+    - destruct (hon (leader V)) eqn:EL.
+      + exists 1%nat. split; [lia|]. intros k Hk. exact (Hhonest (S nb) s V n Hr HV Hh1 Hle Hsb HLS Hfr EL k Hk).
+      + destruct (wlockstep_timeout Bs s V n HBs Hr HV ltac:(lia) ltac:(lia) Hsb HLS EL) as (Hr2 & Hsb2 & HLS2).
+        assert (Hex : exists i', (i' <= nb)%nat /\ hon (leader (V + 1 + Z.of_nat i')) = true).
+        { destruct i as [|i']; [rewrite Z.add_0_r in Hhi; congruence|].
+          exists i'. split; [lia|]. replace (V + 1 + Z.of_nat i') with (V + Z.of_nat (S i')) by lia. exact Hhi. }
+        assert (Hfr2 : fetch_ok_run P pay fetch (sync_rounds P pay fetch 2 s) (2 * (nb + 1))).
+        { apply fetch_ok_run_shift. replace (2 + 2 * (nb + 1))%nat with (2 * (S nb + 1))%nat by lia. exact Hfr. }
+        destruct (IH _ (V + 1) n Hr2 ltac:(lia) ltac:(lia) ltac:(lia) Hsb2 HLS2 Hfr2 Hex) as (r & Hrr & Hall).
         exists (S r). split; [lia|]. intros k Hk.
         replace (2 * S r)%nat with (2 + 2 * r)%nat by lia. rewrite (sync_rounds_add P pay fetch 2).
         exact (Hall k Hk).
